@@ -444,6 +444,9 @@ func verifyAndFillConfig(cfg *ResponseConfig, nowMS int) error {
 			return fmt.Errorf("stop time %ds is too big", stopTimeS)
 		}
 	}
+	if cfg.PeriodsPerHour != nil && (*cfg.PeriodsPerHour < 1 || *cfg.PeriodsPerHour > 3600) {
+		return fmt.Errorf("periods per hour %d is not in the range 1 to 3600", *cfg.PeriodsPerHour)
+	}
 	if cfg.ContMultiPeriodFlag && cfg.PeriodsPerHour == nil {
 		return fmt.Errorf("period continuity set, but not multiple periods per hour")
 	}
